@@ -139,7 +139,7 @@ def o_mass(case):
         W = 8 * sig
         gx, gy, f = real_fp(p, [0.0, X, -W, W], [0.0, 0.0], None)
         errs.append(abs(float(f.sum()) - target))
-    if not (errs[2] <= 5e-5 and errs[2] <= errs[0] + 1e-9):
+    if not (errs[2] <= 5e-5 and errs[2] <= max(errs[0], 5e-6)):
         return fail("C19/mass", "the footprint sum does not tend to the regularised incomplete gamma mass Q(mu, xi/X) as the grid is refined", None,
                     "decreasing, final <= 5e-5", [float(e) for e in errs], None)
     return None
@@ -153,6 +153,11 @@ def o_z0(case):
     zm = np.full(n, case["zm"])
     ws = rng.uniform(2, 8, n)
     wd = rng.uniform(0, 360, n)
+    if case.get("whole_degrees"):
+        # whole-degree directions (as written by most loggers): observations sit exactly on bin and window edges
+        wd = np.floor(wd)
+        if case.get("int_wd"):
+            wd = wd.astype(int)
     us = rng.uniform(0.15, 0.7, n)
     L = np.where(rng.random(n) < 0.5, -rng.uniform(20, 500, n), rng.uniform(30, 800, n))
     z0 = estimateZ0(zm, ws, wd, us, L, half_wd_win=0)
@@ -162,6 +167,19 @@ def o_z0(case):
     if not np.allclose(back[okm], ws[okm], rtol=1e-10):
         return fail("C19/z0-loglaw", "the roughness-length estimate does not invert the diabatic log law", None, "ws", "differs", 1e-10)
     a = estimateZ0(zm, ws, wd, us, L)
+    # independent reference: median of the raw z0 over the circular window [kk - h, kk + 1 + h) of the observation's 1-degree bin
+    h = 22
+    wdf = np.asarray(wd, dtype=float)
+    ref = np.full(n, np.nan)
+    for j in range(n):
+        kk = np.floor(wdf[j])
+        d = (wdf - (kk - h)) % 360.0
+        sel = d < (2 * h + 1)
+        ref[j] = np.nanmedian(z0[sel])
+    same0 = np.isclose(a, ref, rtol=1e-12, atol=0) | (np.isnan(a) & np.isnan(ref))
+    if not np.all(same0):
+        return fail("C19/z0-window", "the smoothed roughness length is not the median over the circular +-22 degree window of the observation's bin",
+                    None, float(ref[~same0][0]), float(a[~same0][0]), 1e-12)
     rho = case["rho"]
     b = estimateZ0(zm, ws, (wd + rho) % 360.0, us, L)
     same = np.isclose(a, b, rtol=1e-12, atol=0) | (np.isnan(a) & np.isnan(b))
@@ -218,7 +236,7 @@ def run(rng, tier, deep):
         run_oracle(st, o_mass, dict(p=p, N=int(rng.integers(25, 75)), res0=float(p["zm"] * 0.8)))
     for _ in range(budget(tier, deep, 10, 100)):
         run_oracle(st, o_z0, dict(seed=int(rng.integers(1 << 30)), n=int(rng.integers(50, 400)), zm=float(rng.uniform(2, 30)),
-                                  rho=float(rng.integers(1, 360))))
+                                  rho=float(rng.integers(1, 360)), whole_degrees=bool(rng.random() < 0.6), int_wd=bool(rng.random() < 0.5)))
     return finish(st, "physically consistent (zm, z0, ws, ustar, L, sigma_v) with both stabilities, Python int / float / numpy int64 / float32 heights, "
                   "resolutions and extents, receptor positions, wind directions (multiples of 90 degrees exactly, arbitrary pointwise); correspondence of the "
                   "power-law parameters and of 12 random cells per case (1e-9; the model's Gamma is a Lanczos approximation); oracle written from the paper's "
